@@ -172,7 +172,7 @@ def LEMMAS():
 
 def matrix_module(repo, g):
     import preamble, m3lemmas
-    return '\n'.join([preamble.read('m3.rs'), VIEWS, transform_matrix_source(repo, g), LEMMAS(), m3lemmas.inverse_lemmas()])
+    return '\n'.join([preamble.read('m3.rs'), VIEWS, transform_matrix_source(repo, g), LEMMAS(), m3lemmas.inverse_lemmas(), m3lemmas.mulvec_assoc_lemma()])
 
 def build(repo):
     import preamble
